@@ -314,6 +314,28 @@ def run(facts, R):
         if "inner" in v and "dispatched" in v:
             R.check(any("is Some" in x and "inner" in x for x in g), "lookup-order", gt.path, "exact hit returns immediately", "row %s under %s" % (v[:80], g), gt.span)
 
+    # ---------------- request-is-the-routing-key: what a handler or mount resolves is the query of the request it was handed.
+    # Middleware may forward a rewritten request with the original context (`next.run(&rewritten)`), so the context's method()
+    # can name another path than the request; it is informational.  No dispatch code reads it, and every registry mount
+    # resolves its pointer from the request's own query
+    n_key = 0
+    for b_ in facts.bodies.values():
+        if not b_.path.startswith(("server::", "<server::", "registry::", "<registry::", "server_request::", "middleware::", "<middleware::")):
+            continue
+        s_ = None
+        for i, t in b_.calls():
+            if t["callee"]["path"].startswith("peer::CallContext") and t["callee"]["name"] == "method":
+                R.bad("request-is-the-routing-key", b_.path, "ctx.method() not read by dispatch code",
+                      "%s reads CallContext::method(): behind a middleware that forwards a rewritten request the context still names the original path, so the request "
+                      "would be resolved against the wrong path" % b_.path.rsplit("::", 1)[-1], t.get("span"))
+            if callee_matches(t["callee"], "server::RegisteredRegistry::pointer_for") and len(t["args"]) == 2:
+                s_ = s_ or Sym(b_)
+                n_key += 1
+                v = render(s_.op(t["args"][1]))
+                R.check("query_str(" in v or ".query" in v, "request-is-the-routing-key", b_.path, "the mount resolves the request's own query",
+                        "pointer_for is given %s, which is not the query of the request being handled" % v[:120], t.get("span"), v[:80])
+    R.floor("request-is-the-routing-key", n_key, 2, "pointer_for calls in the registry mount")
+
     # ---------------- exact-key-verbatim: "an exactly registered path always wins" needs the exact table to be keyed by the very
     # string that requests are looked up with.  Router::get looks the raw request path up; so every insert into the exact
     # table stores the registration path unmodified (an owned copy), and the lookup key is the request path unmodified
@@ -330,7 +352,12 @@ def run(facts, R):
             if t["callee"]["name"] == "insert" and "HashMap" in t["callee"]["path"] and len(t["args"]) == 3 and "RouterMapEntry" in (t.get("arg_tys") or ["", "", ""])[2]:
                 n_ins += 1
                 k = _verbatim(s_.op(t["args"][1]))
-                R.check(k[0] == "arg", "exact-key-verbatim", b_.path, "route stored under the registration path itself",
+                kr = render(k)
+                # (re-inserting the entries of the table itself - register_middleware re-wrapping every route - keeps their keys)
+                from_table = "inner" in kr and ("iter(" in kr or "into_iter(" in kr or "keys(" in kr or "drain(" in kr) and not any(
+                    x[0] == "call" and x[1].rsplit("::", 1)[-1] in ("trim", "trim_end_matches", "trim_start_matches", "to_lowercase", "to_uppercase", "replace", "format", "strip_prefix", "strip_suffix")
+                    for x in walk(k))
+                R.check(k[0] == "arg" or from_table, "exact-key-verbatim", b_.path, "route stored under the registration path itself",
                         "the exact-route table is keyed by %s, not by the path as registered: a request for the registered spelling misses the table and falls through to a mounted prefix"
                         % render(s_.op(t["args"][1]))[:120], t.get("span"), "insert(path.to_string(), ..)")
     R.floor("exact-key-verbatim", n_ins, 1, "inserts into the exact-route table")
